@@ -1,75 +1,14 @@
 //! C01 — stripping removes exactly the escape sequences and nothing else.
-use checks::real::*;
+use checks::oracle::strip as check;
 use proptest::prelude::*;
 use serde_json::Value;
 use vcore::drive::{case_bytes, enum_par, stream_par, Verdict};
 use vcore::gen::{self, StreamCfg};
-use vcore::rt::{self, digest, esc, Acc, Args, Report};
+use vcore::rt::{self, digest, Acc, Args, Report};
 use vcore::vt;
 
 const RULE: &str = "Inputs: every byte string of the stated lengths over the class-representative alphabets (byte-level and character-level), and seeded G-STREAM grammar streams (all classes incl. truncated sequences, embedded controls, C1 bytes, malformed UTF-8; and a valid-UTF-8 sub-language). Oracles: O1 output = visible text of the reference VT parser (valid UTF-8 inputs, all entry points), O2 pieces are in-order sub-slices, &str pieces valid UTF-8, no ESC/DEL/non-whitespace C0 byte in any output (all inputs), O3 all entry points agree. Non-trivial = the input has at least one visible byte and at least one byte that must be dropped (distinct by input bytes).";
 
-/// All oracles on one input. Returns whether the case is non-trivial.
-fn check(input: &[u8]) -> Result<bool, String> {
-    let valid = vt::is_valid_utf8(input);
-    let model = vt::visible(input);
-    let nontrivial = !model.is_empty() && model.len() != input.len();
-
-    // byte-API entry points
-    let mut outs: Vec<(&str, Vec<u8>)> = vec![
-        ("strip_bytes (pieces)", strip_bytes_pieces(input)?),
-        ("strip_bytes().into_vec()", strip_bytes_vec(input)),
-        ("StripBytes::strip_next", strip_bytes_incremental_one(input)?),
-        ("StripStream<Vec<u8>>::write_all", strip_stream_write_all(input)?),
-        ("AutoStream::never(Vec<u8>)::write_all", auto_never_write_all(input)?),
-    ];
-    if valid {
-        // SAFETY-free: validated above by R-UTF8, cross-checked by std here
-        let s = std::str::from_utf8(input)
-            .map_err(|_| "R-UTF8 accepted what std rejects (harness bug)".to_owned())?;
-        outs.push(("strip_str (pieces)", strip_str_pieces(s)?));
-        outs.push(("strip_str().to_string()", strip_str_to_string(s)));
-        outs.push(("strip_str() Display", strip_str_display(s)));
-        outs.push(("StripStr::strip_next", strip_str_incremental_one(s)?));
-    }
-    // O2: forbidden bytes
-    for (name, out) in &outs {
-        if let Some(b) = forbidden_byte(out) {
-            return Err(format!(
-                "{name} output contains control byte {:#04x}: input {} -> {}",
-                b,
-                esc(input),
-                esc(out)
-            ));
-        }
-    }
-    // O1: exact, valid UTF-8 only
-    if valid {
-        for (name, out) in &outs {
-            if *out != model {
-                return Err(format!(
-                    "{name}: input {} gave {} but the visible text is {}",
-                    esc(input),
-                    esc(out),
-                    esc(&model)
-                ));
-            }
-        }
-    }
-    // O3: agreement (for malformed input this is all that is asserted beyond O2)
-    for (name, out) in &outs[1..] {
-        if *out != outs[0].1 {
-            return Err(format!(
-                "{name} gave {} but {} gave {} for input {}",
-                esc(out),
-                outs[0].0,
-                esc(&outs[0].1),
-                esc(input)
-            ));
-        }
-    }
-    Ok(nontrivial)
-}
 
 fn run(args: &Args, rep: &mut Report) {
     let tier = args.tier;
